@@ -180,6 +180,11 @@ def mutate(r, o, prof=HOSTILE, ops=None, rate=0.35):
             o = dict(items)
             ops.append("permute-keys")
         return o
+    if prof.integral_floats and isinstance(o, (int, float)) and not isinstance(o, bool) and r.random() < 0.12 \
+            and float(o) == o and abs(o) < 2**53:
+        # the numerically equal twin of the other numeric type (1 <-> 1.0)
+        ops.append("int-float-twin")
+        return float(o) if isinstance(o, int) else int(o)
     if r.random() < rate:
         ops.append("edit-scalar" if r.random() < 0.6 else "retype-scalar")
         return gscalar(r, prof)
